@@ -70,7 +70,7 @@ class DialectOb(StmtOb):
             return "C09-exasol-create-view-target-lost"
         if d == "clickhouse" and ("where_in" in key or "where_exists" in key) and same("targets") and subset("sources") and subset("pairs"):
             return "C09-clickhouse-where-subquery-tables-lost"
-        if d == "tsql" and st.kind == "view" and st.cols and same("sources") and same("targets"):
+        if d in ("tsql", "clickhouse") and st.kind == "view" and st.cols and same("sources") and same("targets"):
             return "C09-tsql-view-column-list-ignored"
         if d in ("tsql", "sqlite") and st.kind == "update" and same("sources") and same("targets") and not other.pairs:
             return "C09-update-from-column-pairs-lost"
